@@ -35,6 +35,7 @@ type Case struct {
 	FileMB    int      `json:"file_mb,omitempty"`    // smart: file size reported by the fake index
 	MinConf   int      `json:"min_conf,omitempty"`   // smart: selector's minimum confidence in percent
 	StableUS  int      `json:"stable_us,omitempty"`  // smart: selector's minimum stability period in microseconds
+	Rotate    bool     `json:"rotate,omitempty"`     // smart: the selector's strategy proposes lazy, incremental, none, incremental, .. in turn (every evaluation changes the mode)
 	PreEnable bool     `json:"pre_enable,omitempty"` // btree: incremental mode is enabled before the goroutines start (no enable/stop race window)
 	Threads   []Thread `json:"threads"`
 	// Expect is a replay hint only: the finding a saved case is meant to reproduce. When a program hits several
